@@ -47,7 +47,7 @@ func VC04_VerifySound() {
 	cert := vsym.Cert(signer, serial)
 	issuer := cert.RawIssuer
 	// translator validation: the certificate model's issuer is the DER name the native test CA has
-	vsym.AssertBytesEq(issuer[:13], []byte{0x30, 0x12, 0x31, 0x10, 0x30, 0x0e, 0x06, 0x03, 0x55, 0x04, 0x03, 0x13, 0x07}, "model issuer = native issuer layout")
+	vsym.AssertBytesEq(issuer[:13], []byte{0x30, 0x12, 0x31, 0x10, 0x30, 0x0e, 0x06, 0x03, 0x55, 0x04, 0x03, 0x0c, 0x07}, "model issuer = native issuer layout")
 	vsym.Assert(len(issuer) == 20, "model issuer = native issuer length")
 
 	// an honest signature exists
